@@ -306,7 +306,15 @@ where
                     // done concurrently.
                     loop {
                         select! {
-                            Some(message) = stream.next().instrument(span.clone()), if !sync_done_received => {
+                            message = stream.next().instrument(span.clone()), if !sync_done_received => {
+                                // The remote is not done yet, a closed stream at this point means
+                                // that the session broke off. Without this check the closed stream
+                                // would be polled again and again, without ever yielding.
+                                let Some(message) = message else {
+                                    debug!(parent: &span, "Stream closed unexpectedly");
+                                    return Err(LogSyncError::UnexpectedStreamClosure);
+                                };
+
                                 let message =
                                     message
                                     .inspect_err(|error| debug!(parent: &span, ?error, "Log sync error"))
